@@ -1,7 +1,7 @@
 """Per-property tables used by ./check: model files the correspondence needs, trusted base, assumptions."""
 
 KERNEL = "Coq 8.16.1 kernel and vm_compute (used for Examples and for evaluating the model on case files); no native_compute; no axioms (Print Assumptions: closed under the global context)"
-GEN = "gen/ translator (go/ast): constants, struct-tag schemas, templates, uuid masks, lock shape re-extracted from /repo on every run; gen/funcs.go translates FUNCTION BODIES to Gallina, four units regenerated on every run: GenFuncs.v (Validate, VerifyAssertionConditions, ValidateDecodedLogoutResponse/Request, validate*Attributes, RetrieveAssertionInfo, Values.Get/GetSize/GetAll, the key getters of saml.go), GenDecrypt.v (types.EncryptedKey.DecryptSymmetricKey, types.EncryptedAssertion.DecryptBytes: switches, type switch, slice / index / %, CryptBlocks), GenTree.v (ValidateEncodedResponse incl. its NSFindIterate handler closure, ValidateEncodedLogoutResponsePOST, ValidateEncodedLogoutRequestPOST) and GenBuild.v (buildAuthnRequest, buildLogoutRequest, buildLogoutResponse: pointer-based tree construction as functional updates at paths), over the combinators of GenPrelude*.v; every nil dereference, index, slice bound, zero divisor, dangling handle, unmarshal into a non-zero struct is an explicit panic outcome; P_GenFuncs / P_GenDecrypt / P_GenTree / P_GenBuild prove each translated body equal to the hand-written model for all inputs. Trusted: the Go-subset semantics (GenPrelude*.v), the binding tables (Go struct fields -> model accessors; calls into crypto / etree / goxmldsig / parseResponse / decryptAssertions / Sign* -> Section variables or model operations), one clock reading per call (sp.Clock.Now() -> now), non-nil receiver and struct-pointer arguments, no aliasing of locally created structs, Document.Root() of a parsed document has a non-nil parent different from itself, debugKeyFp total (modelled separately in Decrypt.v), fmt.Errorf texts not modelled"
+GEN = "gen/ translator (go/ast): constants, struct-tag schemas, templates, uuid masks, lock shape re-extracted from /repo on every run; gen/funcs.go + gen/unit_*.go translate FUNCTION BODIES to Gallina, thirteen generated files regenerated on every run: GenFuncs.v (Validate, VerifyAssertionConditions, ValidateDecodedLogoutResponse/Request, validate*Attributes, RetrieveAssertionInfo, Values.Get/GetSize/GetAll, the key getters of saml.go), GenDecrypt.v (DecryptSymmetricKey, DecryptBytes), GenTree.v (ValidateEncodedResponse incl. its NSFindIterate handler, the two logout validators), GenBuild.v (buildAuthnRequest, buildLogoutRequest, buildLogoutResponse), GenKeys.v (SetSPKeyStore, SetSPSigningKeyStore, getDecryptCert), GenDecTree.v (decryptAssertions with its handler and in-place edits), GenDeflate.v (maybeDeflate, parseResponse, DecodeUnverifiedBaseResponse, DecodeUnverifiedLogoutResponse), GenMeta.v (Metadata, MetadataWithSLO), GenRedirect.v (signatureInputString, build*URLFromDocument and wrappers), GenPost.v (the POST-form builders and wrappers), GenSign.v (SigningContext, Sign*, the document wrappers), GenVctx.v (validationContext, validateElementSignature), over the combinators of GenPrelude*.v; every nil dereference, index, slice bound, zero divisor, explicit panic(), dangling handle, unmarshal into a non-zero struct is an explicit panic outcome; int64 / time.Duration arithmetic wraps; P_Gen*.v prove each translated body equal to the hand-written model for all inputs and P_Pipeline.v composes the inbound units. Trusted: the Go-subset semantics (GenPrelude*.v), the binding tables of funcs.go and unit_*.go (Go struct fields -> model accessors; calls into crypto / etree / goxmldsig / net/url / html/template / compress/flate -> Section variables or model operations; the etree facts listed in GenPreludeE.v), one clock reading per call (sp.Clock.Now() -> now), non-nil receiver and struct-pointer arguments unless listed as nil-able, no aliasing of locally created structs (enforced syntactically for tracked objects), Document.Root() of a parsed document has a non-nil parent different from itself, debugKeyFp total (modelled separately in Decrypt.v), fmt.Errorf texts not modelled except %d in the deflate unit"
 HARNESS = "Go harness (generators, projection of observables to Coq terms, spec oracle), go1.24.0 toolchain as /repo"
 
 PROFILE_MODEL = ["Base", "Time", "Types", "SchemaDefs", "ConcDefs", "Generated", "Profile", "GenPrelude", "GenFuncs"]
